@@ -171,6 +171,8 @@ package parser
 //@   ensures scanner_dropped_only_at_clean_end: r.inputScanner == nil ==> !result && scdone(old(r.inputScanner)) && scerr(old(r.inputScanner)) == nil
 //@   ensures scanner_kept_otherwise: r.inputScanner != nil ==> r.inputScanner == old(r.inputScanner)
 //@   ensures comments_stay_off: !r.fieldScanner.keepComments
+//@   invariant 0 same_scanners: r.inputScanner == old(r.inputScanner) && r.inputScanner != nil && r.fieldScanner == old(r.fieldScanner) && !r.fieldScanner.keepComments
+//@   invariant 0 still_reading: !scdone(r.inputScanner) || scerr(r.inputScanner) == old(scerr(r.inputScanner))
 
 //@ func Parser.Err
 //@   requires r != nil && r.fieldScanner != nil
@@ -183,5 +185,5 @@ package parser
 //@   requires r != nil && r.inputScanner != nil && !scstarted(r.inputScanner)
 
 //@ func New
-//@   ensures fresh_parser: result != nil && fresh(result) && result.inputScanner != nil && result.fieldScanner != nil && !scstarted(result.inputScanner) && !scdone(result.inputScanner)
+//@   ensures fresh_parser: result != nil && fresh(result) && fresh(result.fieldScanner) && result.inputScanner != nil && result.fieldScanner != nil && !scstarted(result.inputScanner) && !scdone(result.inputScanner)
 //@   ensures field_parser_configured: result.fieldScanner.removeBOM && !result.fieldScanner.keepComments && result.fieldScanner.err == nil && result.fieldScanner.data == "" && !result.fieldScanner.started
